@@ -1,6 +1,5 @@
 """C04 (who is asked to revoke the old key): CertAuth::revoke_requests(parent) -- the revocation request of a class's old key is
-handed out only for the parent that class is held under; every class of the CA gets an entry (an empty one if there is nothing to
-revoke there or it belongs to another parent).  The caller sends whatever this returns to `parent` and finishes the roll on the
+handed out only for the parent that class is held under; every open request of a class under that parent is handed out.  The caller sends whatever this returns to `parent` and finishes the roll on the
 answer -- also on a "no such key" answer -- so a request handed out for the wrong parent retires the old key without the real parent
 ever revoking it."""
 from vxlib import Unit
@@ -28,15 +27,16 @@ def build():
     prelude.strings(U)
     U.opaque('ResourceClass', '')
     U.opaque('ResourceClassName', 'Clone, PartialEq, Eq, Hash')
-    U.opaque('ParentHandle', 'Clone, PartialEq, Eq', eq=True)
+    U.opaque('ParentHandle', 'Clone, PartialEq, Eq, Hash', eq=True)
+    U.opaque('ParentCaContact', '')
     U.opaque('RevocationRequest', 'Clone')
     U.outside('''
 impl ResourceClass {
     pub fn revoke_request(&self) -> Option<&RevocationRequest> { unimplemented!() }
     pub fn parent_handle(&self) -> &ParentHandle { unimplemented!() }
 }
-/// stand-in for CertAuth: the one field revoke_requests reads
-pub struct CertAuth { pub resources: HashMap<ResourceClassName, ResourceClass> }
+/// stand-in for CertAuth: the field revoke_requests reads, and the parents map (so that code consulting it is decided)
+pub struct CertAuth { pub resources: HashMap<ResourceClassName, ResourceClass>, pub parents: HashMap<ParentHandle, ParentCaContact> }
 ''')
     U.add('#[verifier::external_type_specification] pub struct ExCertAuth(CertAuth);')
     U.add(SPEC)
@@ -44,23 +44,25 @@ pub struct CertAuth { pub resources: HashMap<ResourceClassName, ResourceClass> }
     U.impl('impl CertAuth', [
         U.fn(CA, 'CertAuth', 'revoke_requests', attrs=['#[verifier::loop_isolation(false)]'], requires=[('km', km)],
              ensures=[
-                 ('an_entry_for_every_class', 'forall |n: ResourceClassName| r@.contains_key(n) <==> self.resources@.contains_key(n)'),
-                 ('only_for_the_parent_the_class_is_held_under', 'forall |n: ResourceClassName| #[trigger] self.resources@.contains_key(n) ==> r@[n]@ == entry_for(self.resources@[n], *parent)'),
+                 # (whether classes with nothing to revoke get an empty entry is not part of the statement: the caller sends nothing for them)
+                 ('only_for_the_parent_the_class_is_held_under', 'forall |n: ResourceClassName| #[trigger] r@.contains_key(n) ==> self.resources@.contains_key(n) && r@[n]@ == entry_for(self.resources@[n], *parent)'),
+                 ('no_open_request_left_out', 'forall |n: ResourceClassName| #[trigger] self.resources@.contains_key(n) && entry_for(self.resources@[n], *parent).len() > 0 ==> r@.contains_key(n)'),
              ],
              loops={0: {'iter': 'vx_it', 'invariant': [
                  ('pairs', '''vx_it.seq().len() == self.resources@.len() && (forall |i: int| 0 <= i < vx_it.seq().len() ==> self.resources@.contains_key(*(#[trigger] vx_it.seq()[i]).0)
                         && self.resources@[*vx_it.seq()[i].0] == *vx_it.seq()[i].1) && vx_it.seq().no_duplicates()'''),
                  ('all_listed', 'forall |n: ResourceClassName| #[trigger] self.resources@.contains_key(n) ==> exists |j: int| 0 <= j < vx_it.seq().len() && *(#[trigger] vx_it.seq()[j]).0 == n'),
                  ('only_classes', 'forall |n: ResourceClassName| #[trigger] res@.contains_key(n) ==> self.resources@.contains_key(n) && entry_of(res@, n) == entry_for(self.resources@[n], *parent)'),
-                 ('done_or_to_come', '''forall |n: ResourceClassName| #[trigger] self.resources@.contains_key(n) ==> res@.contains_key(n)
+                 ('done_or_to_come', '''forall |n: ResourceClassName| #[trigger] self.resources@.contains_key(n) && entry_for(self.resources@[n], *parent).len() > 0 ==> res@.contains_key(n)
                         || exists |j: int| vx_it.index@ <= j < vx_it.seq().len() && *(#[trigger] vx_it.seq()[j]).0 == n'''),
              ]}},
              ghost=[
                  (('loop_start', 0), 'let ghost g_res = res@; let ghost g_i = vx_it.index@ as int; proof { assert((name, rc) == vx_it.seq()[g_i]); }'),
                  (('loop_end', 0), '''proof {
-                    /*@entry_of_this_class_is_for_its_own_parent*/ assert(res@.contains_key(*name) && entry_of(res@, *name) =~= entry_for(*rc, *parent));
+                    /*@entry_of_this_class_is_for_its_own_parent*/ assert((entry_for(*rc, *parent).len() > 0 ==> res@.contains_key(*name))
+                        && (res@.contains_key(*name) ==> entry_of(res@, *name) =~= entry_for(*rc, *parent)));
                     assert(forall |n: ResourceClassName| n != *name ==> (#[trigger] res@.contains_key(n) <==> g_res.contains_key(n)) && (g_res.contains_key(n) ==> res@[n] == g_res[n]));
-                    assert forall |n: ResourceClassName| #[trigger] self.resources@.contains_key(n) implies res@.contains_key(n)
+                    assert forall |n: ResourceClassName| #[trigger] self.resources@.contains_key(n) && entry_for(self.resources@[n], *parent).len() > 0 implies res@.contains_key(n)
                         || exists |j: int| g_i + 1 <= j < vx_it.seq().len() && *(#[trigger] vx_it.seq()[j]).0 == n by {
                         if n != *name && !g_res.contains_key(n) { let j = choose |j: int| g_i <= j < vx_it.seq().len() && *(#[trigger] vx_it.seq()[j]).0 == n; assert(j != g_i); }
                     }
